@@ -576,6 +576,15 @@ struct ImpyBox { ImpySize sz; float64 w; }
 message ImpyTag { 1 -> string k; 2 -> ImpyBox box; }
 `
 
+// importUses are further definitions of the importing file that refer to imported types
+// from inside containers.
+var importUses = []string{
+	"struct UsesImpN { ImpPoint[] ps; array[ImpyBox] bs; map[string, ImpPoint] byName; uint32 tail; }\nmessage UsesImpNM { 1 -> map[uint8, ImpNote[]] notes; 2 -> ImpyTag[] tags; }\n",
+	"union UsesImpU { 1 -> struct UsesImpUA { ImpPoint[] p; } 2 -> message UsesImpUB { 1 -> map[string, ImpyTag] t; 2 -> ImpU[] us; } }\nstruct HoldsImpU { UsesImpU u; ImpColor[] cs; }\n",
+	"struct UsesImpDeep { ImpPoint[][] grid; map[string, map[uint16, ImpyBox[]]] deep; array[array[ImpNote]] nn; byte z; }\n",
+	"message UsesImpOnlyNested { 1 -> array[ImpU] us; 2 -> map[guid, ImpySize] sizes; 3 -> map[int32, ImpNote] byId; }\n",
+}
+
 // prepareFile parses the main text (with an optional import) into the shared File and
 // optionally gives every top-level slice spare capacity filled with sentinel entries.
 func prepareFile(text string, withImport bool, spare int) (*bebop.File, []byte, error) {
@@ -648,6 +657,9 @@ func runC14(c *Ctx) *Replay {
 	}
 	sc.Extra["import"] = fmt.Sprint(withImport)
 	sc.Extra["spare"] = fmt.Sprint(spare)
+	if withImport && r.Chance(1, 2) {
+		sc.Extra["impform"] = fmt.Sprint(1 + r.Intn(len(importUses)))
+	}
 	nt := r.Range(2, 4)
 	var tasks []TaskSpec
 	for i := 0; i < nt; i++ {
@@ -816,6 +828,13 @@ func execConcurrent(n *Node, sc *Scenario) *Violation {
 		} else {
 			cp.Bop = prog.Bop + "\n" + se
 		}
+		prog = &cp
+	}
+	if k := atoiDefault(sc.Extra["impform"], 0); withImport && k > 0 && int(k) <= len(importUses) {
+		// imported types in NESTED positions (array elements, map values, containers of
+		// containers, union branches), one form also with a package used nowhere else
+		cp := *prog
+		cp.Bop = prog.Bop + "\n" + importUses[k-1]
 		prog = &cp
 	}
 	// prelude: the complementary call (every option flipped) of each task, so that the
